@@ -523,12 +523,18 @@ func runParent(ck Check, tier string, seed int64, jobs int) int {
 		"violations":  nviol,
 	}
 	b, _ := json.MarshalIndent(ev, "", " ")
-	evdir := filepath.Join(verifRoot(), "evidence")
-	os.MkdirAll(evdir, 0o755)
+	// runs against a deliberately changed tree (check --mutant) keep their evidence out of /verif/evidence
+	evdir := os.Getenv("VERIF_EVIDENCE_DIR")
+	if evdir == "" {
+		evdir = filepath.Join(verifRoot(), "evidence")
+	}
+	os.MkdirAll(filepath.Join(evdir, "tiers"), 0o755)
 	if err := os.WriteFile(filepath.Join(evdir, ck.ID+".json"), append(b, '\n'), 0o644); err != nil {
 		fmt.Fprintln(os.Stderr, err)
 		return 2
 	}
+	// the same record, kept per tier (evidence/<id>.json is the last run of either tier)
+	os.WriteFile(filepath.Join(evdir, "tiers", ck.ID+"."+tier+".json"), append(b, '\n'), 0o644)
 	if nfail > 0 {
 		fmt.Printf("HARNESS-ERROR property=%s %d of %d workers failed (crash, exit or hang); their part of the space is not covered\n", ck.ID, nfail, n)
 		if exit == 0 {
